@@ -180,11 +180,13 @@ def hexs(rng, n):
 
 
 def hashes(rng):
-    h = {"MD5": hexs(rng, 32)}
+    """algorithm names partly in a spelling the library normalises (md5 -> MD5):
+    an in-place normalisation of the caller's dict would be visible"""
+    h = {rng.choice(["MD5", "MD5", "md5"]): hexs(rng, 32)}
     if rng.random() < 0.5:
-        h["SHA-256"] = hexs(rng, 64)
+        h[rng.choice(["SHA-256", "SHA-256", "sha256", "sha-256"])] = hexs(rng, 64)
     if rng.random() < 0.3:
-        h["SHA-1"] = hexs(rng, 40)
+        h[rng.choice(["SHA-1", "sha1"])] = hexs(rng, 40)
     return h
 
 
